@@ -422,6 +422,7 @@ def run(ctx):
     interval.leb128_obligations(ctx, "C03.R7")
     from . import C10_helpers
     C10_helpers.zigzag(ctx, "C03.R7")
+    C10_helpers.varint_parse_form(ctx, "C03.R7")
 
     # positive control
     ctl_src = "class FormatField(object):\n    def __init__(self, endianity, format):\n        pass\ndef singleton(f):\n    return f()\n@singleton\ndef Int16sl():\n    return FormatField('<', 'H')\n"
